@@ -244,8 +244,16 @@ def parse_regions(b):
     return regions
 
 
-def prefix_events(rng, kind, stride=1, overwrite=False):
+def prefix_events(rng, kind, stride=1, overwrite=False, large=False):
     sk, keys = random_sketch(rng, kind, small=overwrite)
+    if large:
+        # tables of 64 KiB and more (size-dependent code paths of save(): buffering, preallocation)
+        sk = {"linear": lambda: impl.countmin.CountMinLinear(2**14 + rng.choice([0, 3]), 1),
+              "log16": lambda: impl.countmin.CountMinLog16(2**13, 5), "log8": lambda: impl.countmin.CountMinLog8(2**16 + 1, 1),
+              "hll": lambda: impl.hyperloglog.HyperLogLog(16, 3),
+              "hh": lambda: impl.heavyhitters.HeavyHitters(2**11, 1, 32)}[kind]()
+        for k in keys[:8]:
+            sk.add(k, 3)
     path = impl.tmpfile()
     if overwrite:
         # save() over an existing, longer sketch file of the same class: the file save() leaves
@@ -272,6 +280,8 @@ def prefix_events(rng, kind, stride=1, overwrite=False):
     if overwrite:
         stride = 1 if len(data) < 3000 else 5
     offsets = list(range(0, len(data), stride)) + [len(data)]
+    if large:
+        offsets = list(range(0, len(data), 211)) + list(range(max(0, len(data) - 1200), len(data) + 1)) + list(range(0, 200))
     # always include the boundaries of every region and their neighbours
     acc = 0
     for _k, ln in regions:
